@@ -18,7 +18,7 @@ from mathy_core.tokenizer import TOKEN_TYPES, Token, Tokenizer
 
 from ..core import Report, Violation, collect, out_of_time, pmap, seed
 from ..symstr import SymKeyDict, SymStr, fresh_string
-from ..symx import Ctx, Stats, explore
+from ..symx import Budget, Ctx, Stats, _arm, explore
 
 T = TOKEN_TYPES
 WS = [32, 9, 13, 10]
@@ -126,6 +126,8 @@ def run_real(text: Any, padding: bool, symbolic: bool):
         toks = tk.tokenize(text)
     except ValueError:
         return "error", "ValueError"
+    except Budget:
+        return "raised", "no result within the step / wall-clock budget (non-terminating?)"
     except Exception as e:
         return "raised", type(e).__name__
     return "ok", [(t.type, value_chars(t.value)) for t in toks]
@@ -197,7 +199,11 @@ def compare(chars: List[Any], ctx: Optional[Ctx], names: List[str], text: Any) -
 
 
 def concrete_check(text: str) -> List[str]:
-    return compare([ord(ch) for ch in text], None, function_names(), text)[0]
+    _arm(10.0)  # a tokenizer that does not return within 10 s on a string of a few characters does not terminate
+    try:
+        return compare([ord(ch) for ch in text], None, function_names(), text)[0]
+    finally:
+        _arm(0)
 
 
 # character classes used to split the exploration over the workers (they cover all code points)
@@ -210,8 +216,9 @@ def char_classes() -> List[Any]:
     return cl
 
 
-def worker(item: Tuple[int, Tuple[int, ...]]) -> Dict[str, Any]:
-    L, pre = item
+def worker(item: Any) -> Dict[str, Any]:
+    L, pre = item[0], item[1]
+    fixed: Dict[int, int] = item[2] if len(item) > 2 else {}
     st = Stats()
     names = function_names()
     classes = char_classes()
@@ -223,6 +230,8 @@ def worker(item: Tuple[int, Tuple[int, ...]]) -> Dict[str, Any]:
         s = fresh_string(L)
         for i, k in enumerate(pre):
             ctx.add(classes[k](s.chars[i]))
+        for i, code in fixed.items():
+            ctx.add(s.chars[i] == code)
         problems, nq = compare(list(s.chars), ctx, names, s)
         text = s.concrete(ctx.ensure_model()) if problems or ctx.stats.paths % 97 == 0 else None
         return problems, nq, text
@@ -280,7 +289,15 @@ def run(tier: str) -> int:
         split = min(L, 2)
         for pre in itertools.product(range(ncls), repeat=split):
             items.append((L, pre))
-    rep.bounds = {"length": f"every string of length <= {Lmax}", "alphabet": "every Unicode code point 0..0x10FFFF per character",
+    # strings around a registered function name: one or two free characters before and after it
+    for name in function_names():
+        for before, after in ((1, 0), (0, 1), (1, 1), (2, 0), (0, 2)) + (((2, 1), (1, 2)) if tier != "quick" else ()):
+            L = before + len(name) + after
+            fx = {before + i: ord(ch) for i, ch in enumerate(name)}
+            items.append((L, (), fx))
+        items.append((2 * len(name), (), {i: ord(ch) for i, ch in enumerate(name + name)}))
+    rep.bounds = {"around_function_names": "every string  c* + name + c*  with up to two free characters around each registered "
+                  "function name (any code point)", "length": f"every string of length <= {Lmax}", "alphabet": "every Unicode code point 0..0x10FFFF per character",
                   "padding": "both modes on every string", "registered_functions": function_names()}
     rep.functions = ["Tokenizer.tokenize", "identify_constants", "identify_alphas", "identify_operators", "eat_token",
                      "is_alpha", "is_number", "TokenContext"]
